@@ -17,10 +17,18 @@ def build_split(rng, depth, prefix, rel_dir):
     k = 0
     for i in range(len(own) + 1):
         while k < len(positions) and positions[k] == i:
-            parts = rng.choice([[f"m_{prefix}{k}"], ["sub", f"m_{prefix}{k}"], ["a", "b", f"m_{prefix}{k}"]])
+            if rng.random() < 0.45:
+                # the same base name in different directories (types.fcp next to sub/types.fcp, a/b/types.fcp)
+                parts = [[], ["sub"], ["a", "b"], ["lib"]][k % 4] + [rng.choice(["types", "common"])]
+            else:
+                parts = rng.choice([[f"m_{prefix}{k}"], ["sub", f"m_{prefix}{k}"], ["a", "b", f"m_{prefix}{k}"]])
             mdir = "/".join([rel_dir] + parts[:-1]) if rel_dir else "/".join(parts[:-1])
             mpath = (mdir + "/" if mdir else "") + parts[-1] + ".fcp"
+            if mpath in files or any(mpath == q for q in files):
+                continue
             m_items, m_flat, m_files = build_split(rng, depth - 1, f"{prefix}Q{k}_", mdir)
+            if any(q in files for q in m_files) or mpath in m_files:
+                continue
             files.update(m_files)
             files[mpath] = m_items
             items.append(("mod", parts))
